@@ -53,7 +53,7 @@ class C10(Check):
         n = 280 if tier == "quick" else 8000
         rng = np.random.default_rng([seed, 10])
         for i in range(n):
-            yield dict(seed=seed * 100003 + i, closed=["left", "right"][i % 2],
+            yield dict(seed=seed * 100003 + i, closed=["left", "right"][i % 2], workers=2 if (i // 2) % 4 == 0 else 1,
                        edges=str(rng.choice(["linear", "irregular", "narrow", "one_bin", "many"], p=[0.24, 0.24, 0.24, 0.22, 0.06])),
                        weighted=bool(rng.random() < 0.5),
                        empty=str(rng.choice(["none", "patch_outside", "bin_empty", "all_outside"], p=[0.5, 0.2, 0.2, 0.1]))
@@ -110,7 +110,7 @@ class C10(Check):
         cfg = Configuration.create(rmin=0.01, rmax=0.5, unit="deg", edges=edges.tolist(), closed=closed)
         counters = {}
         # a quarter of the cases runs the consumers on two worker processes (binning objects are pickled)
-        nw = 2 if case["seed"] % 4 == 0 else 1
+        nw = case.get("workers", 1)
         import os
 
         os.environ["YAW_NUM_THREADS"] = str(nw)
